@@ -122,7 +122,7 @@ CLAIMS = {
             'sign difference of exactly the two values that become (f1,f2); C02.d NaN ends exit, f(l)f(r)>0 exits, an exact zero at an end is returned as is; '
             'C02.e a previous-iterate variable, if the stopping test has one, starts at a constant sentinel; the loop returns on a distance test against the accuracy or on f(x4)==0; '
             'C02.f what the accepting test certifies: the distance compared with xAccuracy is the width of the maintained bracket (f1 f2<0) and the returned point lies in it '
-            '(intermediate value theorem; a test between successive iterates certifies nothing - that was the pinned tree, repaired by c5f5b05)',
+            '(intermediate value theorem; a test between successive iterates certifies nothing - that was the pinned tree, repaired by 75a1bfb)',
             'that the bracket shrinks below the accuracy within the 50 iterations for every function and accuracy (convergence), exactness on linear functions to rounding'),
     'C07': ('symbolic differentiation/limits of the extracted closed forms (sympy), sum summaries of the discrete families, wiring checks, dependency on C06 rules',
             'C07.a for uniform, normal, exponential, Maxwell-Boltzmann and chi-square: d/dx CDF == PDF on the support, the PDF vanishes exactly on the constant CDF branches, '
